@@ -5,6 +5,7 @@ import (
 	"encoding/json"
 	"fmt"
 	"io/ioutil"
+	"strings"
 	"unicode/utf8"
 
 	"github.com/jf-tech/omniparser/header"
@@ -218,6 +219,44 @@ func c18Drive(args []string) int {
 					events = append(events, M{"ev": "same", "tr": fam, "item": s.Name, "results": fpAll(v, "full"), "desc": fmt.Sprintf("declared %s, %d bytes, delivery %v", enc, len(in), sizes), "enc": enc})
 					sum.Traces++
 					sum.eval(len(g.Results) > 2, M{"f": s.Name, "e": enc, "n": len(in), "d": sizes})
+				}
+			}
+		}
+	}
+	// long XML documents that name an encoding in their own declaration as well (the decoder then has a second charset
+	// layer of its own), non-ASCII characters at every alignment relative to the buffer sizes
+	{
+		xs := minis["xml"]
+		schU, err, p := newSchema(xs.Schema)
+		if err != nil || p != "" {
+			fmt.Println("error: schema", xs.Name, err, p)
+			return 3
+		}
+		for enc, table := range tables {
+			schE, err, p := newSchema(withEncoding(xs.Schema, enc))
+			if err != nil || p != "" {
+				fmt.Println("error: schema", xs.Name, enc, err, p)
+				return 3
+			}
+			for pad := 0; pad < 6; pad++ {
+				var sb bytes.Buffer
+				sb.WriteString(`<?xml version="1.0" encoding="` + enc + `"?>` + strings.Repeat(" ", pad) + "<root>")
+				for k := 0; sb.Len() < 14000; k++ {
+					sb.WriteString(fmt.Sprintf(`<rec id="r%d"><qty>%d</qty><tag>`, k, k))
+					sb.Write([]byte{'o', 'l', 0xE9, ' ', 0xFC, 'b', 'e', 'r', ' ', 0xF1, 0xE9, 0xE9})
+					sb.WriteString(fmt.Sprintf("%d</tag></rec>", k%7))
+				}
+				sb.WriteString("</root>")
+				in := sb.Bytes()
+				fam++
+				g := transcriptOf(schU, bytes.NewReader(toUTF8(table, in)), 100000)
+				events = append(events, M{"ev": "golden", "tr": fam, "item": "xml with its own encoding declaration", "results": fpAll(g, "full"), "desc": "converted to utf-8"})
+				for _, sizes := range [][]int{nil, {1000}} {
+					v := transcriptOf(schE, &chunkReader{data: in, sizes: sizes, failAt: -1}, 100000)
+					events = append(events, M{"ev": "same", "tr": fam, "item": "xml with its own encoding declaration", "results": fpAll(v, "full"),
+						"desc": fmt.Sprintf("declared %s, %d bytes, %d blanks after the declaration, delivery %v", enc, len(in), pad, sizes), "enc": enc})
+					sum.Traces++
+					sum.eval(len(g.Results) > 2, M{"f": "xml-decl", "e": enc, "pad": pad, "d": sizes})
 				}
 			}
 		}
